@@ -166,6 +166,28 @@ def other_plasma(rec):
 def prior_phase(rec, rates, model, evaluate, calls, ad, pl, beam=None, evaluate_elsewhere=None):
     """Bind the model to the prior provider / plasma, evaluate once (exceptions ignored), then bind to (ad, pl)."""
     prior = rec.get("prior", "none")
+    if prior == "reline":
+        from cherab.core.atomic import Line
+        mine = model.line
+        from cherab.core.atomic import hydrogen
+        model.line = Line(element("he"), 1, (4, 3)) if rec["model"] == "bcx" else Line(hydrogen, 0, (3, 2))
+        try:
+            evaluate()
+        except Exception:          # noqa: BLE001
+            pass
+        model.line = mine
+        del calls[:]
+        return
+    if prior == "integrator":
+        try:
+            evaluate()
+        except Exception:          # noqa: BLE001
+            pass
+        from cherab.core.math.integrators import GaussianQuadrature
+        model.integrator = GaussianQuadrature()
+        calls.earlier = {tuple(x) for x in calls if x[0] not in ("eval", "wavelength")}
+        del calls[:]
+        return
     if prior in ("point", "mutated"):
         try:
             (evaluate_elsewhere if prior == "point" else evaluate)()
